@@ -555,6 +555,7 @@ func (sc cdrScenario) alphabet(raw json.RawMessage, depth int) (ops []Op) {
 		if live[u] < sc.maxSess {
 			c := mkCreate(u, "smf"+fmt.Sprint(live[u]+1))
 			c.CID = int32(100*(u+1) + live[u] + depth*10)
+			c.V6 = live[u] == 1 // the second session of a subscriber attaches through a consumer known by IPv6 address and FQDN
 			ops = append(ops, c)
 			if sc.small {
 				c2 := c
